@@ -26,7 +26,10 @@
     C14 / C15  frame_binary (46 methods), frame_unary (20 methods), frame_scale: returns normally; result and raised bits do
          not depend on the status word on entry; the word is only OR-ed into
 
-  NOT DERIVABLE YET from the finished `…Gen…` theorems (missing piece in brackets):
+  [The list below is the state when THIS file was written.  It has since been overtaken: see the 123-method table at the top of
+   SourceLevel4.lean (SourceLevel2 / SourceLevel3 / SourceLevel4, C10GenFmodRem, C01GenDivClosed, C01GenSqrtLong,
+   C02GenFmaAssembly3, C07GenBinConv close every row except the rounding loop of bid128_add, hypothesis `LoopRestRounding`).]
+  NOT DERIVABLE YET (at the time of writing) from the finished `…Gen…` theorems (missing piece in brackets):
     C01 / C02 / C10  the numeric results of addition, subtraction, multiplication, division, square_root,
          fused_multiply_add, remainder, fmod  [no complete specification of bid128_add / mul / div / sqrt / fma / rem / fmod;
          only their NaN front ends (C12GenNaN) and the helper layers C01GenArith, C02GenRound, C13GenPack]; the operator forms
